@@ -190,6 +190,9 @@ SUITES["struct3w"] = {
 }
 SUITES["seg13w"] = _seg_suite("seg13w", [1, 3], "D_1x3", [1, 1], "S_11", sample={"quick": 300, "thorough": 4000})
 SUITES["seg13w"]["cfg"]["warm"] = True
+# the label array is a non-contiguous view of a wider array
+SUITES["seg13v"] = _seg_suite("seg13v", [1, 3], "D_1x3", [1, 1], "S_11", sample={"quick": 250, "thorough": 4000})
+SUITES["seg13v"]["cfg"]["seg_view"] = True
 # the 4-node seed shapes (division, skip edge, grandchild ...) with node ids starting at 0
 SUITES["struct4n0"] = {
     "tla": SUITES["struct4s"]["tla"],
